@@ -71,3 +71,24 @@ Theorem C05_gen_nonmembership_verifies : forall cfg, canonical (c_empty_label cf
   verify_nonmembership cfg (root_hash cfg true t) (get_non_membership_proof cfg t x) = true.
 Proof. exact NonMemComplete.nonmembership_complete. Qed.
 Print Assumptions C05_gen_nonmembership_verifies.
+
+(* ------------------------------------------------------------------ at the directory level *)
+From Akd Require Import Binding Directory DirRefine.
+From Akd Require DirSoundReach.
+(* After ANY sequence of publish requests: the leaf of a stored version cannot be shown absent against
+   the served epoch hash - a verifying non-membership proof for its node label exhibits the bad event
+   of the configuration.  (The well-formed-tree premise of the theorems above is discharged for the
+   directory's tree.) *)
+Theorem C05_published_version_cannot_be_denied :
+  forall (cfg : config) (Bad : Prop), Binding cfg Bad ->
+  forall (ck : bytes) (vrf_label : bytes -> bool -> N -> option nlabel),
+  (forall l f v nl, vrf_label l f v = Some nl -> WF nl /\ canonical nl = true /\ llen nl = 256) ->
+  (forall l f v l' f' v' nl, vrf_label l f v = Some nl -> vrf_label l' f' v' = Some nl -> l = l' /\ f = f' /\ v = v') ->
+  (bytes -> bytes -> bytes -> option bytes) -> bytes ->
+  D32 (c_stale_value cfg) ->
+  forall reqs s nl p,
+  let st := run_publishes cfg ck vrf_label dir_new reqs in
+  In s (d_states st) -> vrf_label (vr_user s) true (vr_version s) = Some nl -> np_label p = nl -> nmp_ok p ->
+  verify_nonmembership cfg (snd (epoch_hash cfg st)) p = true -> Bad.
+Proof. exact DirSoundReach.stored_version_not_deniable_reachable. Qed.
+Print Assumptions C05_published_version_cannot_be_denied.
